@@ -3,6 +3,7 @@ use exec_common::gen::Cfg;
 use exec_common::*;
 fn main() {
     let mut cfg = Cfg::default();
+    cfg.doomed_subs = true;
     cfg.self_admin = true;
     cfg.wrapped_codes = true;
     cfg.migrate_bias = true;
